@@ -49,6 +49,7 @@ class Contract:
     trusted = False  # contract is assumed (external / out of reach); body not verified
     may_raise = ()  # exception classes that may be raised for unspecified reasons
     bounded_only = False
+    ctor = False
 
     def requires(self, c, a):
         return []
@@ -58,6 +59,10 @@ class Contract:
 
     def raises(self, c, a):
         """[(ExcName, when-formula over the pre-state, label)]: raises exactly when."""
+        return []
+
+    def ghost(self, c, a, r):
+        """ghost assignments on exit (assumptions about ghost functions at fresh objects)"""
         return []
 
     def exc_ensures(self, c, a, exc):
@@ -81,6 +86,7 @@ class Verifier:
         self.timeout_ms = timeout_ms
         self.eng = Engine(program, schema, contracts, dict(B.H), timeout_ms)
         self.eng.modular_hook = self.modular
+        self.eng.ctor_hook = self.modular_ctor
         self.eng.global_axioms = list(spec.global_axioms())
         spec.install(self.eng)
         self.obls = []
@@ -181,17 +187,31 @@ class Verifier:
             return None
         return self._apply(K, fi, args, kwargs, state, node)
 
-    def _apply(self, K, fi, args, kwargs, state, node):
+    def modular_ctor(self, eng, cls, args, kwargs, state, node):
+        ci = self.program.cls(cls)
+        if ci is None:
+            return None
+        qual = ci.module + "." + cls
+        K = self.contracts.get(qual)
+        if K is None or qual in self.disabled_contracts:
+            return None
+        init = self.program.method(ci.module, cls, "__init__")
+        return self._apply(K, init, [NONE] + list(args), kwargs, state, node, qual=qual)
+
+    def _apply(self, K, fi, args, kwargs, state, node, qual=None):
         eng = self.eng
         env = eng.bind_args(fi, args, kwargs, state)
+        if qual:
+            env.pop("self", None)
         a = Args({k: v for k, v in env.items()})
+        fq = qual or fi.qual
         pre = Ctx(eng, state)
         caller = state.env.get("__func__", "?")
         line = getattr(node, "lineno", 0)
-        n = self.site_counter.setdefault((self.current, fi.qual, line), len([k for k in self.site_counter if k[0] == self.current and k[1] == fi.qual]))
-        site = "%s#%d" % (fi.qual.replace("measured.", ""), n)
+        n = self.site_counter.setdefault((self.current, fq, line), len([k for k in self.site_counter if k[0] == self.current and k[1] == fq]))
+        site = "%s#%d" % (fq.replace("measured.", ""), n)
         if not self.spec.applicable(K, a):
-            raise Unsupported("contract of %s not applicable to these argument types" % fi.qual)
+            raise Unsupported("contract of %s not applicable to these argument types" % fq)
         for name in K.inv:
             for nm, f in self.spec.invariant(name, pre):
                 self.add("call-pre", "%s:inv:%s" % (site, nm), state, f)
@@ -207,9 +227,9 @@ class Verifier:
             if eng.feasible(state, w):
                 s2 = state.fork()
                 s2.assume(w)
-                yield Exc(exc, "from " + fi.qual), s2
+                yield Exc(exc, "from " + fq), s2
         for exc in K.may_raise:
-            yield Exc(exc, "from " + fi.qual), state.fork()
+            yield Exc(exc, "from " + fq), state.fork()
         st = state.fork()
         for exc, when, label in whens:
             if when is not None:
@@ -246,7 +266,7 @@ class Verifier:
             else:
                 st.writes.add(m)
         ret = K.ret(a) if callable(K.ret) else K.ret
-        result = self.make(ret, st, "ret_" + fi.name) if ret is not None else NONE
+        result = self.make(ret, st, "ret_" + fq.split(".")[-1]) if ret is not None else NONE
         post = Ctx(eng, st, old=pre)
         for nm, f in K.ensures(post, a, result):
             st.assume(f)
@@ -265,6 +285,11 @@ class Verifier:
         """Returns dict: {'function', 'sha', 'results': {oid: {...}}, 'error': str|None, 'paths': n}"""
         K = self.contracts[qual]
         fi = self.program.func(qual)
+        ctor_cls = None
+        if fi is None and self.program.cls(qual.split(".")[-1]) is not None:
+            ctor_cls = qual.split(".")[-1]
+            fi = self.program.method(self.program.cls(ctor_cls).module, ctor_cls, "__init__")
+        self.ctor_cls = ctor_cls
         out = {"function": qual, "results": {}, "error": None, "paths": 0, "props": list(K.props), "vacuity": []}
         if fi is None:
             out["error"] = "function not found in source"
@@ -277,6 +302,8 @@ class Verifier:
         t0 = time.time()
         try:
             params = list(fi.params)
+            if ctor_cls:
+                params = params[1:]
             alts = []
             for p in params:
                 t = K.types.get(p)
@@ -318,13 +345,20 @@ class Verifier:
         pre = Ctx(eng, pre_state)
         whens = list(K.raises(pre, a))
         npaths = 0
-        for kind, payload, s2 in eng.run(fi, vals, st):
+        if self.ctor_cls:
+            st.env = {"__module__": fi.module, "__depth__": 0, "__stack__": (), "__func__": K.qual, "__ctor_inline__": self.ctor_cls}
+            runner = ((("raise" if isinstance(v, Exc) else "return"), v, s9) for v, s9 in eng.construct(self.ctor_cls, vals, {}, st))
+        else:
+            runner = eng.run(fi, vals, st)
+        for kind, payload, s2 in runner:
             npaths += 1
             post = Ctx(eng, s2, old=pre)
             if kind == "return":
                 for exc, when, label in whens:
                     if when is not None:
                         self.add("no-raise", "%s:%s" % (exc, label), s2, z3.Not(when))
+                for f in K.ghost(post, a, payload):
+                    s2.assume(f)
                 for nm, f in K.ensures(post, a, payload):
                     self.add("post", nm, s2, f)
                 for name in K.inv:
@@ -375,32 +409,59 @@ class Verifier:
         for oid, obs in groups.items():
             status, ms, model_txt, note = "discharged", 0.0, None, ""
             for ob in obs:
-                s = z3.Solver()
-                s.set(timeout=self.timeout_ms)
-                for ax in self.eng.global_axioms:
-                    s.add(ax)
-                for ax in ob.axioms:
-                    s.add(ax)
-                for ax in self.spec.lemma_instances(ob):
-                    s.add(ax)
-                s.add(*ob.pc)
-                s.add(z3.Not(ob.goal))
-                t = time.time()
-                r = s.check()
-                ms += (time.time() - t) * 1000
+                r, dt, smodel, reason = self._check(ob)
+                ms += dt
                 if r == z3.sat:
                     status = "refuted"
                     try:
-                        model_txt = self.spec.describe_model(s.model(), ob)
+                        model_txt = self.spec.describe_model(smodel, ob)
                     except Exception as e:
                         model_txt = "model unavailable: %s" % e
                     note = ob.note
                     break
                 if r == z3.unknown:
                     status = "undecided"
-                    note = s.reason_unknown()
+                    note = reason
             out["results"][oid] = {"status": status, "ms": round(ms, 1), "paths": len(obs), "backend": "z3-%s" % z3.get_version_string(),
                                    "model": model_txt, "note": note}
+
+
+def _check_one(hyps, goal, timeout):
+    s = z3.Solver()
+    s.set(timeout=timeout)
+    s.add(*hyps)
+    s.add(z3.Not(goal))
+    t = time.time()
+    r = s.check()
+    return r, (time.time() - t) * 1000, s
+
+
+def _portfolio(self, ob):
+    """Try the obligation with growing hypothesis sets.  `unsat` from any subset of the
+    hypotheses is a proof; `sat` counts only with the full set."""
+    from .engine import _has_quant
+    base = list(self.eng.global_axioms) + list(ob.axioms) + list(self.spec.lemma_instances(ob))
+    full = base + list(ob.pc)
+    qf = [f for f in full if not _has_quant(f)]
+    total = 0.0
+    r, dt, s = _check_one(full, ob.goal, min(2000, self.timeout_ms))
+    total += dt
+    if r == z3.unknown and len(qf) < len(full):
+        r2, dt, s2 = _check_one(qf, ob.goal, min(3000, self.timeout_ms))
+        total += dt
+        if r2 == z3.unsat:
+            return r2, total, None, ""
+    if r == z3.unknown and self.timeout_ms > 2000:
+        r, dt, s = _check_one(full, ob.goal, self.timeout_ms)
+        total += dt
+    if r == z3.sat:
+        return r, total, s.model(), ""
+    if r == z3.unknown:
+        return r, total, None, s.reason_unknown()
+    return r, total, None, ""
+
+
+Verifier._check = _portfolio
 
 
 def _tname(t):
